@@ -149,7 +149,13 @@ MarkV(k) ==
                THEN [m EXCEPT !.outH = v.h, !.outR = v.r, !.outVer = v.ver] ELSE m
   IN [k EXCEPT !.V = v, !.smm = m2]
 
-MarkN(k) == [k EXCEPT !.N = [k.N EXCEPT !.ver = @ + 1]]
+\* a state machine that entered the round after the voting round on its own is told about changes of that view too
+MarkN(k) ==
+  LET v == [k.N EXCEPT !.ver = @ + 1]
+      m == k.smm
+      m2 == IF m.reH = v.h /\ m.reR = v.r
+               THEN [m EXCEPT !.outH = v.h, !.outR = v.r, !.outVer = v.ver] ELSE m
+  IN [k EXCEPT !.N = v, !.smm = m2]
 
 Mark(k, slot) == CASE slot = "V" -> MarkV(k) [] slot = "N" -> MarkN(k) [] slot = "C" -> MarkC(k)
 
